@@ -785,9 +785,26 @@ async fn ex_observer(global: &GlobalHandle, tables: &TableHandle, sendmax: usize
 }
 
 impl ExWorld {
-    async fn new(sendmax: usize) -> Self {
+    async fn new(sendmax: usize, reject: &str) -> Self {
         let global = mk_global();
         let tables: TableHandle = Arc::new(TableManager::new(1));
+        // an export policy that rejects the routes of one attribute class (they carry the community 65000:<n>)
+        let rejecting = |n: u32| {
+            let mut pt = table::PolicyTable::new();
+            pt.add_defined_set(table::DefinedSetConfig::Community { name: "rej".into(), patterns: vec![format!("65000:{n}")] }).map_err(|_| ()).unwrap();
+            pt.add_statement("s", vec![table::ConditionConfig::CommunitySet("rej".into(), table::MatchOption::Any)], Some(table::Disposition::Reject), table::Actions::default())
+                .map_err(|_| ())
+                .unwrap();
+            pt.add_policy("p", vec!["s".into()]).map_err(|_| ()).unwrap();
+            let (_, a) = pt.add_assignment("global", table::PolicyDirection::Export, table::Disposition::Accept, vec!["p".into()]).map_err(|_| ()).unwrap();
+            a
+        };
+        if reject != "-" {
+            // the neighbour's own export policy rejects class `reject`; the global one (which the neighbour's overrides)
+            // rejects the OTHER class, so that using the wrong one anywhere shows
+            let n = if reject == "x" { 1 } else { 2 };
+            tables.export_policy.store(Some(rejecting(3 - n)));
+        }
         let obs_addr = IpAddr::V4(Ipv4Addr::new(127, 0, 0, 1));
         let mut p = base_params(obs_addr);
         if sendmax > 1 {
@@ -795,6 +812,10 @@ impl ExWorld {
             p.send_max.insert(Family::IPV4, sendmax);
         }
         global.write().await.add_peer(p, None).unwrap();
+        if reject != "-" {
+            let n = if reject == "x" { 1 } else { 2 };
+            global.read().await.peers.get(&obs_addr).unwrap().state.export_policy.store(Some(rejecting(n)));
+        }
         let mut sources = FnvHashMap::default();
         for s in ["s1", "s2", "o"] {
             sources.insert(s.to_string(), ex_new_source(s));
@@ -962,7 +983,7 @@ async fn export_replay() {
         if tok[0] == "seq" {
             seq = tok[1].to_string();
             step = 0;
-            let mut nw = ExWorld::new(tok[2].parse().unwrap()).await;
+            let mut nw = ExWorld::new(tok[2].parse().unwrap(), tok.get(3).copied().unwrap_or("-")).await;
             // the initial dump of the empty RIB (OPEN, KEEPALIVE, End-of-RIB)
             let _ = nw.flush_and_read().await;
             w = Some(nw);
@@ -2765,5 +2786,166 @@ async fn bmpsession_replay() {
     }
     if let Some(mut old) = w.take() {
         old.close().await;
+    }
+}
+
+// ------------------------------------------------------------------------------------------------
+// C08 driver binding: PeerFsm model behaviours of one (passive) connection executed on the real session driver -
+// PeerSession::rx_msg for received messages, the timer-expiry arm of the select loop (arbiter + apply_outputs) for the
+// keepalive timer, the real flush_tx for "an UPDATE was sent" - with the deadlines of the real tokio Sleeps in
+// holdtime_futures / keepalive_futures read after every step.
+//
+// Input (VERIF_IN ending in .hold.in): "seq <sid> <local_hold>" then "P connected | P open <asn> <rid> <hold> | P keepalive |
+// P update | P refresh | P katimer | P updatesent".  Output: per step whether each timer was re-armed and to what.
+// ------------------------------------------------------------------------------------------------
+
+fn hd_deadline(f: &FuturesUnordered<tokio::time::Sleep>) -> Option<tokio::time::Instant> {
+    std::pin::Pin::new(f).iter_pin_ref().next().map(|s| s.deadline())
+}
+
+/// seconds from `now` to the deadline, -1 for "never" (more than ten years away), -2 for "no timer object"
+fn hd_secs(d: Option<tokio::time::Instant>, now: tokio::time::Instant) -> i64 {
+    match d {
+        None => -2,
+        Some(d) => {
+            let s = d.saturating_duration_since(now).as_secs_f64();
+            if s > 10.0 * 365.0 * 86400.0 { -1 } else { s.round() as i64 }
+        }
+    }
+}
+
+#[tokio::test]
+async fn holddriver_replay() {
+    let Ok(inp) = std::env::var("VERIF_IN") else {
+        return;
+    };
+    if !inp.ends_with(".hold.in") {
+        return;
+    }
+    let outp = std::env::var("VERIF_OUT").expect("VERIF_OUT");
+    let text = std::fs::read_to_string(&inp).expect("read VERIF_IN");
+    let mut out = std::io::BufWriter::new(std::fs::File::create(&outp).expect("create VERIF_OUT"));
+    struct W {
+        global: GlobalHandle,
+        sess: PeerSession,
+        stream: TcpStream,
+        _client: TcpStream,
+        local: SocketAddr,
+        peer: SocketAddr,
+    }
+    let mut w: Option<W> = None;
+    let mut sid = String::new();
+    let mut step = 0usize;
+    let mut ended = false;
+    for line in text.lines() {
+        let t: Vec<&str> = line.split_whitespace().collect();
+        if t.is_empty() {
+            continue;
+        }
+        if t[0] == "seq" {
+            sid = t[1].to_string();
+            step = 0;
+            ended = false;
+            let global = mk_global();
+            let tables: TableHandle = Arc::new(TableManager::new(1));
+            let addr = IpAddr::V4(Ipv4Addr::new(127, 0, 0, 1));
+            let mut p = base_params(addr);
+            p.holdtime = t[2].parse().unwrap();
+            p.expected_remote_asn = 65002;
+            p.families.insert(Family::IPV4, 0);
+            global.write().await.add_peer(p, None).unwrap();
+            let (client, server) = pair_from(Ipv4Addr::new(127, 0, 0, 1)).await;
+            let mut sess = accept_connection(&global, &tables, server, crate::fsm::Role::Passive).await.expect("accept_connection");
+            let stream = sess.stream.take().unwrap();
+            let peer = stream.peer_addr().unwrap();
+            let local = stream.local_addr().unwrap();
+            w = Some(W { global, sess, stream, _client: client, local, peer });
+            continue;
+        }
+        step += 1;
+        let x = w.as_mut().unwrap();
+        if ended {
+            writeln!(out, "{{\"seq\":\"{}\",\"step\":{},\"skipped\":true}}", sid, step).unwrap();
+            continue;
+        }
+        let before_h = hd_deadline(&x.sess.holdtime_futures);
+        let before_k = hd_deadline(&x.sess.keepalive_futures);
+        let now = tokio::time::Instant::now();
+        let role = x.sess.role;
+        let mut terminated = false;
+        let mut note = String::new();
+        let rx = |m: bgp::Message| m;
+        match t[1] {
+            "connected" => {
+                let outs = x.sess.conn_arbiter.lock().unwrap().process(role, crate::fsm::Input::Connected(false));
+                let (st, eff) = x.sess.apply_outputs(outs, x.local, x.peer).await;
+                x.sess.process_effects(eff, &x.global).await;
+                terminated = matches!(st, Step::Terminate { .. });
+            }
+            "open" | "keepalive" | "update" | "refresh" => {
+                let msg = match t[1] {
+                    "open" => rx(bgp::Message::Open(bgp::Open {
+                        as_number: t[2].parse().unwrap(),
+                        holdtime: HoldTime::new(t[4].parse().unwrap()).unwrap_or(HoldTime::DISABLED),
+                        router_id: t[3].parse().unwrap(),
+                        capability: vec![packet::Capability::MultiProtocol(Family::IPV4), packet::Capability::FourOctetAsNumber(t[2].parse().unwrap())],
+                    })),
+                    "keepalive" => bgp::Message::Keepalive,
+                    "update" => bgp::Message::Update(bgp::Update::Reach {
+                        family: Family::IPV4,
+                        entries: vec![packet::PathNlri { path_id: 0, nlri: packet::Nlri::V4(bgp::Ipv4Net { addr: Ipv4Addr::new(198, 51, 100, 0), mask: 24 }) }],
+                        nexthop: Some(bgp::Nexthop::V4(Ipv4Addr::new(127, 0, 0, 1))),
+                        attr: Arc::new(vec![
+                            packet::Attribute::new_with_value(packet::Attribute::ORIGIN, 0).unwrap(),
+                            packet::Attribute::new_with_bin(packet::Attribute::AS_PATH, vec![2, 1, 0, 0, 0xfd, 0xea]).unwrap(),
+                        ]),
+                    }),
+                    _ => bgp::Message::RouteRefresh { family: Family::IPV4 },
+                };
+                let g = x.global.clone();
+                let st = x.sess.rx_msg(&g, x.local, x.peer, msg).await;
+                terminated = matches!(st, Step::Terminate { .. });
+            }
+            "katimer" => {
+                let outs = x.sess.conn_arbiter.lock().unwrap().process(role, crate::fsm::Input::KeepaliveTimerExpired);
+                let (st, eff) = x.sess.apply_outputs(outs, x.local, x.peer).await;
+                x.sess.process_effects(eff, &x.global).await;
+                terminated = matches!(st, Step::Terminate { .. });
+            }
+            "updatesent" => {
+                // something to send: an UPDATE buffered for IPv4, then the real flush
+                match x.sess.pending.get_mut(&Family::IPV4) {
+                    Some(p) => {
+                        p.buffer_messages(vec![bgp::Message::Update(bgp::Update::Unreach {
+                            family: Family::IPV4,
+                            entries: vec![packet::PathNlri { path_id: 0, nlri: packet::Nlri::V4(bgp::Ipv4Net { addr: Ipv4Addr::new(203, 0, 113, 0), mask: 24 }) }],
+                        })]);
+                        if !x.sess.flush_tx(&mut x.stream).await {
+                            note.push_str("flush_tx failed;");
+                        }
+                    }
+                    None => note.push_str("no pending queue for IPv4 (session not established);"),
+                }
+            }
+            o => panic!("harness: op {o}"),
+        }
+        let after_h = hd_deadline(&x.sess.holdtime_futures);
+        let after_k = hd_deadline(&x.sess.keepalive_futures);
+        writeln!(
+            out,
+            "{{\"seq\":\"{}\",\"step\":{},\"hold_moved\":{},\"hold_in\":{},\"ka_moved\":{},\"ka_in\":{},\"terminated\":{},\"note\":\"{}\"}}",
+            sid,
+            step,
+            after_h != before_h,
+            hd_secs(after_h, now),
+            after_k != before_k,
+            hd_secs(after_k, now),
+            terminated,
+            note
+        )
+        .unwrap();
+        if terminated {
+            ended = true;
+        }
     }
 }
